@@ -41,7 +41,7 @@ def one(m, with_tests):
             if prop == "C20":
                 cmd = "python3 %s/tla/tlalint.py --repo %s --tier quick --evidence %s/%s.json --known %s/known_findings.json" % (HERE, d, ev, prop, HERE)
             else:
-                cmd = "%s/bin/dbftlint -repo %s -prop %s -tier quick -evidence %s/%s.json -known %s/known_findings.json" % (HERE, d, prop, ev, prop, HERE)
+                cmd = "%s -repo %s -prop %s -tier quick -evidence %s/%s.json -known %s/known_findings.json" % (os.environ.get("BIN", HERE + "/bin/dbftlint"), d, prop, ev, prop, HERE)
             env = dict(ENV)
             t = "/root/go/pkg/mod/golang.org/toolchain@v0.0.1-go1.24.0.linux-amd64"
             if os.path.isdir(t):
